@@ -10,6 +10,23 @@ let () =
     match String.split_on_char '|' rest with
     | head :: toks :: _ ->
       (match split_on ' ' head with
+       | ["enc"; _; _] ->
+         (* which encoding label src/encoding.rs takes (Model/Encoding.v chosen_label), shown as the character the byte 0xE9
+            decodes to under that label (encoding_rs is third-party code: the table below is what it does, observed once) *)
+         let bytes = Stdlib.List.map (fun t -> n_of_int (int_of_string t))
+             (Stdlib.List.filter (fun t -> t <> "") (String.split_on_char '.' (String.trim toks))) in
+         let table = [("iso-8859-1", 233); ("windows-1252", 233); ("iso-8859-2", 233); ("koi8-r", 1048); ("windows-1251", 1081);
+                      ("ibm866", 1097); ("iso-8859-7", 953); ("macintosh", 200); ("iso-8859-5", 1097); ("utf-8", 65533);
+                      ("us-ascii", 233); ("latin1", 233)] in
+         (match Encoding.chosen_label bytes None with
+          | None -> print_endline (case ^ " ENC left-to-xhtmlchardet")
+          | Some l ->
+            let label = String.lowercase_ascii (String.trim (String.concat "" (Stdlib.List.map (fun c -> String.make 1 (Char.chr (int_of_n c))) l))) in
+            (* Encoding::decode of encoding_rs sniffs the byte order mark first: behind a UTF-8 byte order mark the bytes are
+               decoded as UTF-8 whatever the label says (a document that declares something else there contradicts itself) *)
+            let bom = (match bytes with a :: b :: c :: _ -> int_of_n a = 239 && int_of_n b = 187 && int_of_n c = 191 | _ -> false) in
+            let code = if bom then 65533 else try Stdlib.List.assoc label table with Not_found -> 65533 in
+            print_endline (case ^ " ENC " ^ string_of_int code))
        | [_cls; mode; srclen] ->
          let ts = tokens_of (String.trim toks) in
          let r = if mode = "frag" then Builder.parse_fragment b t0 (n_of_int 0) ts
